@@ -86,6 +86,99 @@ def suite_limiters(ctx, pf):
             ctx.broke("correspondence", f"limiters/{name}", f"generated definition and numpy disagree at r={rows[i][0]!r}: impl={rows[i][1]!r}")
 
 
+# ---------------------------------------------------------------- binary64 level
+SAFE_F64 = ["VanLeer", "VanAlbada1", "VanAlbada2", "MinMod", "SUPERBEE", "Osher", "Sweby", "smart", "Koren", "MUSCL", "QUICK", "UMIST"]
+OVERFLOWING = ["CHARM", "HCUS", "HQUICK", "ospre", "VanLeer", "VanAlbada1", "VanAlbada2"]     # known finding c13:float_overflow
+
+
+def fhex(x):
+    """Coq literal of a binary64 value (primitive float)"""
+    x = float(x)
+    if math.isnan(x):
+        return "nan"
+    if math.isinf(x):
+        return "infinity" if x > 0 else "neg_infinity"
+    h = x.hex()
+    return f"({h})" if h.startswith("-") else h
+
+
+def float_points(tier, rng):
+    pts = list(SPECIAL) + [-3.0000000000000004, -2.0000000000000004, -0.9999999999999999, 5e-324, -5e-324, 2.2250738585072014e-308]
+    pts += [rng.uniform(-8, 8) for _ in range(40 if tier == "quick" else 400)]
+    pts += [s * rng.uniform(1, 10) * 10.0 ** rng.randint(-300, 150) for s in (1, -1) for _ in range(20 if tier == "quick" else 200)]
+    pts += [s * 2.0 ** k for s in (1, -1) for k in (-1074, -1022, -600, -53, 52, 53, 100, 255, 256, 340, 341, 499, 500)]
+    # beyond 2^500: where the rational limiters overflow (known finding); the model must reproduce inf / nan exactly there too
+    pts += [s * v for s in (1, -1) for v in (2.0 ** 511, 1e154, 2.0 ** 512, 1.5e154, 1e155, 2.0 ** 520, 1e200, 2.0 ** 1023, 1e308, 1.7976931348623157e308)]
+    return pts
+
+
+def suite_limiters_f64(ctx, pf):
+    """the regenerated definitions evaluated in binary64 inside Coq (primitive floats) vs numpy float64: bit for bit
+    (0 = -0; inf / nan only have to agree on not being finite)"""
+    import io, contextlib, inspect
+    rng = random.Random(f"f64-{ctx.seed}")
+    pts = float_points(ctx.tier, rng)
+    items, per = [], {}
+    for name in NAMES + ["no_such_limiter"]:
+        with contextlib.redirect_stdout(io.StringIO()):
+            FL = pf.fluxLimiter(name)
+        with np.errstate(all="ignore"):
+            vals = np.asarray(FL(np.array(pts, dtype=float)), dtype=float)
+        per[name] = list(zip(pts, [float(v) for v in vals]))
+        body = ";\n".join(f"({fhex(r)}, {fhex(v)})" for r, v in per[name])
+        v = ("From Coq Require Import ZArith List String PrimFloat.\n"
+             "From PFV Require Import OField KOps Limiters CorrLib F64Ops.\nImport ListNotations.\nOpen Scope float_scope.\n"
+             f"Definition pts : list (float * float) := [\n{body}].\n"
+             f'Definition verdicts := map (fun p => fsame (FL_dispatch FOps "{name}"%string (eps_default FOps) (fst p)) (snd p)) pts.\n'
+             "Eval vm_compute in (summary verdicts).\n")
+        items.append((f"limf64_{name}", v))
+    # the guard
+    eps1 = inspect.signature(pf.advection._fsign).parameters["eps1"].default
+    gpts = [0.0, -0.0] + [s * k for s in (1.0, -1.0) for k in (eps1, np.nextafter(eps1, 0), np.nextafter(eps1, 1), eps1 / 2, 5e-324, 1e-300, 1.0, 0.3, 1e300, 2.0 ** 1000)]
+    with np.errstate(all="ignore"):
+        gv = [float(y) for y in pf.advection._fsign(np.array(gpts))]
+    body = ";\n".join(f"({fhex(r)}, {fhex(v)})" for r, v in zip(gpts, gv))
+    items.append(("limf64_fsign",
+                  "From Coq Require Import ZArith List String PrimFloat.\n"
+                  "From PFV Require Import OField KOps Limiters CorrLib F64Ops.\nImport ListNotations.\nOpen Scope float_scope.\n"
+                  f"Definition pts : list (float * float) := [\n{body}].\n"
+                  "Definition verdicts := map (fun p => fsame (fsign FOps (eps1_default FOps) (fst p)) (snd p)) pts.\n"
+                  "Eval vm_compute in (summary verdicts).\n"))
+    per["fsign"] = list(zip(gpts, gv))
+    res = lib.coq_eval_many(items)
+    for name in NAMES + ["no_such_limiter", "fsign"]:
+        rc, out = res[f"limf64_{name}"]
+        m = lib.parse_summary(out) if rc == 0 else None
+        rows = per[name]
+        ctx.add_cases("limiters_f64", len(rows), [f"f64:{name}:{r!r}" for r, _ in rows if r != 0],
+                      samples=[{"name": name, "r": rows[7][0].hex(), "impl": rows[7][1].hex()}] if name == "VanAlbada1" else (),
+                      dist={"f64_points_" + name: len(rows), "f64_nonfinite_" + name: sum(1 for _, v in rows if not math.isfinite(v))})
+        if rc != 0 or not m:
+            ctx.broke("correspondence", f"limiters_f64/{name}", out[-800:])
+            continue
+        if m[1] != 0:
+            i = m[2]
+            ctx.broke("correspondence", f"limiters_f64/{name}",
+                      f"the regenerated definition evaluated in binary64 inside Coq and numpy disagree at r={rows[i][0]!r} ({rows[i][0].hex()}): impl={rows[i][1]!r}")
+    # the property's own observable at the float level: finite values for finite ratios
+    #   |r| <= 2^500: proved for SAFE_F64 (C13_float_finite_partial), observed for the other four
+    #   beyond: the rational limiters overflow (C13_float_overflow_refuted) -- known finding; anything else is a new violation
+    overflow_seen = []
+    for name in NAMES:
+        for r, v in per[name]:
+            if math.isfinite(v):
+                continue
+            if abs(r) > 2.0 ** 500 and name in OVERFLOWING:
+                overflow_seen.append((name, r, v))
+            else:
+                ctx.violation(f"limiters:{name}:nonfinite", f"fluxLimiter('{name}')({r!r}) = {v!r} (not finite)", {"name": name, "r": r, "value": repr(v)})
+                break
+    if overflow_seen:
+        name, r, v = overflow_seen[0]
+        ctx.violation("c13:float_overflow", f"fluxLimiter('{name}')({r!r}) = {v!r}: intermediate overflow in binary64 for |r| >= 1.3e154 "
+                      f"({len(overflow_seen)} (name, r) pairs over {sorted({n for n, _, _ in overflow_seen})})", {"name": name, "r": r, "value": repr(v)})
+
+
 def search(ctx, pf):
     """direct evaluation of the property's observables on the real code"""
     import io, contextlib
@@ -182,7 +275,10 @@ def run(ctx):
     ctx.rule = ("limiters suite: every (name, r) with r from special rationals, a seeded grid over [-1e3,1e3] and powers of ten to 1e+-100; "
                 "non-trivial = r != 0, distinct by (name, r). impl_probe: direct evaluation of the property's observables on the real code")
     ctx.extra_trusted = ["translator tools/tr_limiters.py (symbolic tracing of the executed code, fail closed; Python float literals taken exactly)",
-                         "numpy elementwise semantics of + - * / abs minimum maximum and of boolean factors"]
+                         "numpy elementwise semantics of + - * / abs minimum maximum and of boolean factors",
+                         "binary64 level: Coq's primitive floats (kernel implementation of IEEE 754 binary64, evaluated by vm_compute) and the standard "
+                         "library's specification of them (Coq.Floats.FloatAxioms: add_spec, mul_spec, ... as listed by Print Assumptions), Flocq 's "
+                         "Binary / PrimFloat theory; the order of operations of the regenerated definitions is the traced order of the Python code"]
     ctx.prove("C13")
     # how the code FORMS the gradient ratios of the TVD correction (a / _fsign(x) with x a face gradient, then FL(.)) is traced
     # symbolically and proved equal to the model's: that is what makes C13_fsign_ratio_bounded / C13_total statements about the code
@@ -193,6 +289,10 @@ def run(ctx):
         suite_limiters(ctx, pf)
     except Exception:
         ctx.broke("correspondence", "limiters/harness", traceback.format_exc()[-1200:])
+    try:
+        suite_limiters_f64(ctx, pf)
+    except Exception:
+        ctx.broke("correspondence", "limiters_f64/harness", traceback.format_exc()[-1200:])
     try:
         search(ctx, pf)
         import reprprobes
